@@ -317,6 +317,10 @@ def _is_text_postprocessor(b):
     return not any((callee_path(t) or '').startswith('pretty::') for _, t in b.calls())
 
 
+SEARCH_ONLY = re.compile(r'<impl str>::(matches|rmatches|match_indices|contains|starts_with|ends_with|find|rfind|split|rsplit|split_once|rsplit_once|split_terminator|'
+                         r'trim_matches|trim_start_matches|trim_end_matches|strip_prefix|strip_suffix)$|cmp::PartialEq(<.*>)?>?::(eq|ne)$')
+
+
 def r5_no_literal_indentation(w):
     r = RuleResult('C12.R5', 'no string literal in typstyle-core carries indentation (line break, tab, or two consecutive blanks)', floor=40)
     from world import iter_operands_stmt
@@ -333,6 +337,12 @@ def r5_no_literal_indentation(w):
             if t['t'] == 'call':
                 p = callee_path(t) or ''
                 if 'panic' in p or p.endswith('::expect') or 'fmt::Arguments' in p:
+                    continue
+                if SEARCH_ONLY.search(p):
+                    # a pattern that is searched for / compared with, not text that is emitted
+                    for o in t['args']:
+                        if o['o'] == 'const' and 'str' in o:
+                            r.ok({'fn': b.short, 'literal': o['str'], 'use': p.rsplit('::', 1)[-1]}, 'search pattern, never emitted')
                     continue
                 ops += [(o, t['span']) for o in t['args']]
             for o, sp in ops:
